@@ -305,6 +305,12 @@ macro_rules! impl_rank_small_sel {
                 // >= counts.get(block_idx).absolute.
                 block_idx += (local_rank - opt) / Self::BLOCK_BIT_SIZE;
 
+                // The upper block containing the rank ends where the bit
+                // vector ends, if it is the last one.
+                let upper_block_end = Ord::min(
+                    self.len().div_ceil(Self::BLOCK_BIT_SIZE),
+                    (upper_block_idx + 1) * (Self::SUPERBLOCK_BIT_SIZE / Self::BLOCK_BIT_SIZE),
+                );
                 let last_block_idx;
                 if inv_idx + 1 < inventory.len() {
                     let next_inv_upper_block_idx =
@@ -314,7 +320,7 @@ macro_rules! impl_rank_small_sel {
                             + upper_block_idx * Self::SUPERBLOCK_BIT_SIZE;
                         next_inv_pos.div_ceil(Self::BLOCK_BIT_SIZE)
                     } else {
-                        (upper_block_idx + 1) * (Self::SUPERBLOCK_BIT_SIZE / Self::BLOCK_BIT_SIZE)
+                        upper_block_end
                     };
                 } else {
                     // TODO
@@ -326,11 +332,7 @@ macro_rules! impl_rank_small_sel {
                     // blocks containing so few ones that they have no
                     // inventory entry: as above, we clip the span to
                     // the upper block containing the rank.
-                    last_block_idx = Ord::min(
-                        self.len().div_ceil(Self::BLOCK_BIT_SIZE),
-                        (upper_block_idx + 1)
-                            * (Self::SUPERBLOCK_BIT_SIZE / Self::BLOCK_BIT_SIZE),
-                    );
+                    last_block_idx = upper_block_end;
                 }
 
                 debug_assert!(block_idx < counts.len());
